@@ -87,6 +87,14 @@ fn build<'a, F: HFam, S: ESel>(g: &G) -> Built<'a, F, S> {
     Ok((p, cv))
 }
 
+/// `build` with every typed combinator structurally cloned before boxing (wrapper `clone`)
+fn build_cloned<'a, F: HFam, S: ESel>(g: &G) -> Built<'a, F, S> {
+    let old = crate::build::CLONE_TYPED.with(|c| c.replace(true));
+    let r = build::<F, S>(g);
+    crate::build::CLONE_TYPED.with(|c| c.set(old));
+    r
+}
+
 /// `chumsky::cache::Cache` over the builder: the grammar is the cached description, the built parser (for
 /// whatever lifetime the cache is asked for) the cached parser.
 struct HCached<F, S> {
@@ -136,6 +144,7 @@ fn run_leaked<F: HFam, S: ESel>(h: &HCase, bufs: &[&'static F::Buf], why: bool) 
                 Ok((p, cv)) => Ok((p.clone(), cv.clone())),
                 Err(u) => Err(u.0),
             },
+            None if h.wrapper == Wrapper::Clone => build_cloned::<F, S>(&h.grammar).map_err(|u| u.0),
             None => build::<F, S>(&h.grammar).map_err(|u| u.0),
         };
         match built {
